@@ -131,12 +131,16 @@ def adaptive_counts(cls):
     for st in fn.body:
         if isinstance(st, ast.If) and _calls(st.test, "hasInterpolation"):
             def frac(body):
-                if not body or not isinstance(body[-1], ast.Assign) or \
-                        any(not isinstance(b, ast.If) for b in body[:-1]):
-                    raise TranslateError("_adaptiveInterpolationUpdate: branch not an assignment")
-                v = body[-1].value
-                if not (isinstance(v, ast.Call) and isinstance(v.func, ast.Name) and
-                        v.func.id == "int" and isinstance(v.args[0], ast.BinOp)):
+                """the one assignment  appendPointCount = int(<c * n0> | <n0 / c>)  of a branch"""
+                asg = [x for x in body if isinstance(x, ast.Assign) and len(x.targets) == 1 and
+                       isinstance(x.targets[0], ast.Name) and
+                       isinstance(x.value, ast.Call) and isinstance(x.value.func, ast.Name) and
+                       x.value.func.id == "int"]
+                if len(asg) != 1:
+                    raise TranslateError("_adaptiveInterpolationUpdate: branch without a single "
+                                         "int(...) assignment")
+                v = asg[0].value
+                if not isinstance(v.args[0], ast.BinOp):
                     raise TranslateError("_adaptiveInterpolationUpdate: not int(<binop>)")
                 bo = v.args[0]
                 if isinstance(bo.op, ast.Mult):
@@ -151,18 +155,33 @@ def adaptive_counts(cls):
                 if not _is_self_attr(oth, "_initialInterpolationPointCount"):
                     raise TranslateError("_adaptiveInterpolationUpdate: not the initial point count")
                 return q
-            # without a table: `if min == max: return` before the count
-            skip = False
-            for b in st.orelse[:-1]:
-                t = b.test
-                if isinstance(t, ast.Compare) and len(t.ops) == 1 and isinstance(t.ops[0], ast.Eq) \
-                        and len(b.body) == 1 and isinstance(b.body[0], ast.Return) and not b.orelse:
-                    skip = True
-                else:
-                    raise TranslateError("_adaptiveInterpolationUpdate: unexpected guard")
+            # without a table: a guard `if <test>: return` -- kind 1: min == max,
+            # kind 2: max - min <= c * scale * 2 * appendPointCount  (c a literal)
+            guard, gconst = 0, Fraction(0)
+            for b in st.orelse:
+                if isinstance(b, ast.If):
+                    t = b.test
+                    if not (isinstance(t, ast.Compare) and len(t.ops) == 1 and len(b.body) == 1 and
+                            isinstance(b.body[0], ast.Return) and not b.orelse) or guard:
+                        raise TranslateError("_adaptiveInterpolationUpdate: unexpected guard")
+                    if isinstance(t.ops[0], ast.Eq):
+                        guard = 1
+                    elif isinstance(t.ops[0], ast.LtE) and isinstance(t.left, ast.BinOp) and \
+                            isinstance(t.left.op, ast.Sub):
+                        consts = [n.value for n in ast.walk(t.comparators[0])
+                                  if isinstance(n, ast.Constant) and isinstance(n.value, float)]
+                        names = sorted(n.id for n in ast.walk(t.comparators[0])
+                                       if isinstance(n, ast.Name))
+                        if len(consts) != 1 or names != ["appendPointCount", "scale"]:
+                            raise TranslateError("_adaptiveInterpolationUpdate: unexpected guard")
+                        guard, gconst = 2, Fraction(repr(consts[0]))
+                    else:
+                        raise TranslateError("_adaptiveInterpolationUpdate: unexpected guard")
+                elif not isinstance(b, ast.Assign):
+                    raise TranslateError("_adaptiveInterpolationUpdate: unexpected statement")
             if len(st.body) != 1:
                 raise TranslateError("_adaptiveInterpolationUpdate: unexpected guard (table branch)")
-            return frac(st.body), frac(st.orelse), skip
+            return frac(st.body), frac(st.orelse), (guard, gconst)
     raise TranslateError("_adaptiveInterpolationUpdate: if hasInterpolation() not found")
 
 
@@ -249,7 +268,13 @@ def generate(src, hsrc):
         return "[" + "; ".join("(%d)" % int(v) for v in row) + "]%Z"
     from_filtered, flag_ok = interpolate_facts(cls)
     fa, fb, skip = adaptive_counts(cls)
-    res, uses_arange = resolution(cls)
+    try:
+        res, uses_arange = resolution(cls)
+    except TranslateError:
+        # older outline (no cap): the fact is emitted as FALSE, so facts_agree breaks while the
+        # theorems about the model still compile
+        res, uses_arange = Fraction(0), bool(_calls(_method(cls, "extendInterpolationTable"),
+                                                    "arange"))
     lines = [
         "(* generated from src/WallGo/interpolatableFunction.py and helpers.py -- do not edit *)",
         "From Coq Require Import List ZArith QArith Bool.",
@@ -270,8 +295,11 @@ def generate(src, hsrc):
         "(* points appended by an adaptive update: int(c * n0) *)",
         "Definition src_append_frac_table : Q := (%d # %d)." % (fa.numerator, fa.denominator),
         "Definition src_append_frac_notable : Q := (%d # %d)." % (fb.numerator, fb.denominator),
-        "(* no table and all pending points equal: the update returns without building a table *)",
-        "Definition src_skip_single_point : bool := %s." % _bool(skip),
+        "(* no table and pending points that cannot seed a table: the update returns without one *)",
+        "(* 0: none; 1: `min == max`; 2: `max - min <= c * scale * 2 * appendPointCount` *)",
+        "Definition src_notable_guard : nat := %d." % skip[0],
+        "Definition src_notable_guard_const : Q := (%d # %d)." % (skip[1].numerator,
+                                                                  skip[1].denominator),
         "(* an extension appends at most int(width / (c * table width)) points, built by linspace *)",
         "Definition src_resolution : Q := (%d # %d)." % (res.numerator, res.denominator),
         "Definition src_extend_no_arange : bool := %s." % _bool(not uses_arange),
